@@ -18,3 +18,5 @@ def run(ctx):
         nms.run(ctx, "C07", 120 if q else 1200)
         from .. import g72x
         g72x.run(ctx, "C07", 120 if q else 1200)
+        from .. import gsm
+        gsm.run(ctx, "C07", 100 if q else 1000)
